@@ -168,14 +168,15 @@ CONTAINER_FEATURES = {
     'desc-int': ('scalar-number-descriptor', True, _put('v', 7)),
     'desc-negint': ('scalar-number-descriptor', True, _put('v', -3)),
     'desc-bigint': ('scalar-number-descriptor', True, _put('v', 2 ** 40 + 1)),
-    'desc-float': ('scalar-number-descriptor', True, _put('v', 2.5)),
+    'desc-float': ('scalar-number-descriptor', True, _put('v', 0.1)),
     'desc-nan': ('scalar-nan-descriptor', True, _put('v', float('nan'))),
     'desc-inf': ('scalar-number-descriptor', True, _put('v', float('-inf'))),
     'desc-bool': ('scalar-bool-descriptor', True, _put('v', True)),
     'desc-npint': ('scalar-number-descriptor', True, _put('v', lambda: np.int64(5))),
     'desc-npfloat32': ('scalar-number-descriptor', True, _put('v', lambda: np.float32(1.5))),
     'desc-intarray': ('array-descriptor', True, _put('v', lambda: np.array([3, 1, 2]))),
-    'desc-floatarray-nan': ('array-descriptor', True, _put('v', lambda: np.array([0.5, np.nan, np.inf]))),
+    'desc-floatarray-nan': ('array-descriptor', True, _put('v', lambda: np.array([0.1, np.nan, np.inf]))),
+    'desc-floatlist': ('array-descriptor', True, _put('v', lambda: [0.1, 1 / 3, -2.7])),
     'desc-intlist': ('array-descriptor', True, _put('v', lambda: [3, 1, 2])),
     'desc-onelemlist': ('one-element-list-descriptor', True, _put('v', lambda: [3])),
     'desc-strlist': ('string-list-descriptor', True, _put('v', lambda: ['ab', 'c'])),
@@ -196,8 +197,8 @@ CONTAINER_FEATURES = {
     'ax-intlist': ('number-list-descriptor', True, _ax(lambda n, i: [10 - j for j in range(n)])),
     'ax-intarray': ('number-list-descriptor', True, _ax(lambda n, i: np.arange(n)[::-1] * 3)),
     'ax-floatlist-nan': ('number-list-descriptor', True,
-                         _ax(lambda n, i: [float('nan') if j == 0 else j / 4 for j in range(n)])),
-    'ax-floatarray': ('number-list-descriptor', True, _ax(lambda n, i: np.linspace(-1, 1, n))),
+                         _ax(lambda n, i: [float('nan') if j == 0 else 0.1 + j / 3 for j in range(n)])),
+    'ax-floatarray': ('number-list-descriptor', True, _ax(lambda n, i: np.linspace(-1, 1, n) / 3 + 0.1)),
     'ax-boollist': ('bool-list-descriptor', True, _ax(lambda n, i: [j % 2 == 0 for j in range(n)])),
     'ax-matrix': ('matrix-descriptor', True, _ax(lambda n, i: np.arange(3. * n).reshape(n, 3))),
     'ax-matrixlist': ('matrix-descriptor', True, _ax(lambda n, i: [np.eye(2) * (j + 1) for j in range(n)])),
